@@ -73,6 +73,15 @@ class Ctx:
 _BIN = dict(minif._BIN)
 _UN = dict(minif._UN)
 _ARGORDER = {"MOD": ["a", "p"], "SIGN": ["a", "b"]}
+_REDUCTIONS = {"SUM": "add", "MAXVAL": "max", "MINVAL": "min"}
+
+
+def _bounds(arr, dim):
+    if dim == 1:
+        return arr.lo, arr.hi
+    if dim == 2 and arr.lo2 is not None:
+        return arr.lo2, arr.hi2
+    raise minif.Unsupported("dimension %d of %s" % (dim, arr.name))
 
 
 def _dim_of(node):
@@ -93,21 +102,32 @@ def export_expr(node, cx):
         name = node.intrinsic.name.upper()
         args = list(node.arguments)
         if name in ("LBOUND", "UBOUND", "SIZE"):
-            if type(args[0]) is not N.Reference or _dim_of(node) != 1:
+            if type(args[0]) is not N.Reference:
                 raise minif.Unsupported(name + " of a non-array")
             arr = cx.arrays.get(args[0].name.lower())
             if arr is None:
                 raise minif.Unsupported(name + " of unknown array")
-            return ["lit", {"LBOUND": arr.lo, "UBOUND": arr.hi, "SIZE": arr.hi - arr.lo + 1}[name]]
-        if name == "SUM":
-            if len(args) != 1 or type(args[0]) is not N.Reference:
-                raise minif.Unsupported("SUM form")
-            arr = cx.arrays.get(args[0].name.lower())
-            if arr is None:
-                raise minif.Unsupported("SUM of unknown array")
-            out = ["lit", 0]
+            lo, hi = _bounds(arr, _dim_of(node))
+            return ["lit", {"LBOUND": lo, "UBOUND": hi, "SIZE": hi - lo + 1}[name]]
+        if name in _REDUCTIONS:
+            arr_arg, extra = None, []
+            for a, n in zip(args, node.argument_names):
+                if (n is None and arr_arg is None) or (n is not None and n.lower() == "array"):
+                    arr_arg = a
+                else:
+                    extra.append((n, a))
+            for n, a in extra:      # only DIM = 1 of a rank-1 array (a scalar result) is in the subset
+                if not (isinstance(a, N.Literal) and a.value == "1" and (n is None or n.lower() == "dim")):
+                    raise minif.Unsupported(name + " argument form")
+            if arr_arg is None or type(arr_arg) is not N.Reference:
+                raise minif.Unsupported(name + " form")
+            arr = cx.arrays.get(arr_arg.name.lower())
+            if arr is None or arr.lo2 is not None:
+                raise minif.Unsupported(name + " of unknown / rank-2 array")
+            op = _REDUCTIONS[name]
+            out = ["lit", 0] if name == "SUM" else ["idx1", cx.var(arr.name), ["lit", arr.lo]]
             for k in range(arr.lo, arr.hi + 1):
-                out = ["bin", "add", out, ["idx1", cx.var(arr.name), ["lit", k]]]
+                out = ["bin", op, out, ["idx1", cx.var(arr.name), ["lit", k]]]
             return out
         if name in _ARGORDER and any(n is not None for n in node.argument_names):
             order = _ARGORDER[name]
@@ -200,6 +220,8 @@ def export_stmts(node, cx):
             else:
                 cx.freshmap[name] = old
         return res
+    if isinstance(node, N.WhileLoop):
+        return [["while", export_expr(node.condition, cx), export_stmt(node.loop_body, cx)]]
     if isinstance(node, N.CodeBlock):
         out = []
         for ast in node.get_ast_nodes:
@@ -258,10 +280,19 @@ def where_classes(ast, out=None):
                     secs.append((None, x[2][1:]))
                     walk(x[3])
                     return
+                if x[0] == "wa2":
+                    assigned.add(x[1])
+                    walk(x[4])
+                    return
+                if x[0] == "sec2" and len(x) == 8:
+                    secs.append((x[1], x[2:5]))
+                    secs.append((x[1], x[5:8]))
                 if x[0] == "sec" and len(x) == 5:
                     secs.append((x[1], x[2:]))
                 if x[0] in ("sum", "sumdim"):
                     sums.append(x[1])
+                if x[0] in ("red", "reddim"):
+                    sums.append(x[2])
                 for y in x:
                     walk(y)
         walk(ast[3])
@@ -272,9 +303,19 @@ def where_classes(ast, out=None):
         if any(a in assigned for a in elems):
             out.add("C01-where-element-of-assigned-array")
         return out
+    if ast[0] == "named" and _refers(ast[2], ast[3]):
+        return out          # kept whole as a CodeBlock: nothing inside is lowered
     for y in ast:
         where_classes(y, out)
     return out
+
+
+def _refers(name, ast):
+    if not isinstance(ast, list) or not ast:
+        return False
+    if ast[0] == "jump":
+        return ast[2] in (0, 1) and ast[3] == name
+    return any(_refers(name, y) for y in ast)
 
 
 def text_classes(src):
